@@ -86,7 +86,7 @@ PROPS = {
                 "length, non-hex rune), UnmarshalBinary} x prior receiver (point spec with recipe). Oracle: acceptance predicate written "
                 "from the statement; accepted => exact point, rejected => error and unchanged receiver value. Non-trivial = every case "
                 "except random strings of a length no decoder accepts. Distinct by case hash.",
-        "units": [unit("props", "^TestC03", tier(200000, 8, 900), tier(8000000, 16, 5400, fuzztime=120), fuzz=["FuzzElementDecode"])],
+        "units": [unit("props", "^TestC03", tier(120000, 8, 900), tier(8000000, 16, 5400, fuzztime=120), fuzz=["FuzzElementDecode"])],
         "checks_expected": ["C03/decoders"],
     },
     "C08": {
